@@ -23,7 +23,9 @@ TRUSTED = {
     'A11': 'A11 stated preconditions: wrap_optimal_fit: fragments.len() < usize::MAX; wrap_columns: columns <= isize::MAX and '
            'display_width(middle_gap)*(columns-1) <= usize::MAX (the "result could not fit in memory" exemption made precise)',
     'A12': 'A12 the rewrite rules R0-R15 preserve behaviour (each application is logged in the evidence); the Python lexer/merger, Verus, Z3, Kani/CBMC, rustc',
-    'A13': 'A13 BEC oracles: unicode-linebreak 0.1.5 and unicode-width 0.2.0 from the cargo registry are taken as the UAX #14 / width tables the properties refer to',
+    'A13': 'A13 BEC oracles: unicode-linebreak 0.1.5 and unicode-width 0.2.0 from the cargo registry are taken as the UAX #14 / width tables the properties refer to; '
+           'in Verus (U20) unicode_linebreak::linebreaks(s) is abstract with an assumed shape (strictly increasing char-boundary positions in 1..=s.len()), '
+           'checked on the real crate within scope by BEC contract A13.linebreaks.shape (C11)',
     'A14': 'A14 wrap_optimal_fit returns Ok for usize-valued line widths and penalties ("the computation cannot overflow when the line widths are restricted to usize"): '
            'assumed in U17 (floats are uninterpreted), checked within scope by BEC C04 (no overflow error for any usize-valued input)',
     'A15': 'A15 a user-supplied WrapAlgorithm::Custom function returns an ordered partition of the words; a WordSplitter::Custom function returns strictly increasing '
@@ -130,16 +132,18 @@ PROPS = {
         'explanation': 'Proof: display_width equals the spec function written from the statement, for all texts (Verus); per-char facts for all chars (Kani, and exhaustive enumeration).',
     },
     'C11': {
-        'units': ['U6', 'U13', 'U3', 'U20'], 'level': 'other', 'trusted': ['A3', 'A4', 'A12', 'A13'],
-        'proved_part': 'Verus: Word::from — word ++ whitespace is the input, whitespace is spaces only, the word does not end in a space, width == display width, no penalty. '
-                       'ASCII separator (U13, all lines): every word is Word::from(line[s0..s1]) where s1 is the first position after s0 at which a space is followed by a non-space '
-                       '(or the end of the line) — the boundaries are exactly those positions — and the collected words tile the line.',
-        'bounded_part': 'BEC: that every kept opportunity yields a boundary (completeness of the Unicode half), the real unicode-linebreak tables behind the assumed shape A13, '
-                        'and every clause of both halves again by execution.',
-        'explanation': 'Mixed, mostly proved: per-word construction, the complete ASCII half, and for the Unicode separator (U20, its three closures via conversion R16, and '
-                       'strip_ansi_escape_sequences in U3) losslessness, the filter rule (not at the end of the stripped text, not directly after \'-\' or a soft hyphen) and '
-                       'soundness of the mapping (every boundary is a fresh position of the line — never inside an escape sequence — whose stripped offset is a kept opportunity), '
-                       'relative to the assumed shape of unicode_linebreak::linebreaks. Completeness of the mapping is bounded-only.',
+        'units': ['U6', 'U13', 'U3', 'U20'], 'level': 'proof', 'trusted': ['A3', 'A4', 'A12', 'A13', 'R16'],
+        'proved_part': 'Verus, all lines: Word::from — word ++ whitespace is the input, whitespace is spaces only, the word does not end in a space, width == display width, no penalty (U6). '
+                       'ASCII separator (U13): every word is Word::from(line[s0..s1]) where s1 is the first position after s0 at which a space is followed by a non-space '
+                       '(or the end of the line) — the boundaries are exactly those positions — and the collected words tile the line. '
+                       'Unicode separator (U20, its three closures via R16): the words tile the line; there is exactly one boundary per kept opportunity, in order, where the kept '
+                       'opportunities are those unicode_linebreak::linebreaks reports for the stripped line (strip proved in U3) minus the one at the end and those directly after '
+                       '\'-\' or a soft hyphen; each boundary is the byte offset of a position of the original line that is not inside an escape sequence and whose stripped '
+                       'prefix has exactly the opportunity\'s length.',
+        'bounded_part': 'BEC: the real unicode-linebreak tables behind the assumed shape A13 (A13.linebreaks.shape), and every clause of both halves again by execution on the real '
+                        'WordSeparator::find_words (whose three-arm dispatch is not under contract).',
+        'explanation': 'Proof: every clause of the statement is a discharged Verus obligation on the extracted functions, relative to A13 (the crate\'s linebreaks() is taken as '
+                       '"the UAX #14 opportunities", with only its shape assumed) and the std iterator behaviour of from_fn/filter/find/collect (A4, R16).',
     },
     'C12': {
         'units': ['U6', 'U14', 'U15', 'U16'], 'level': 'other', 'trusted': ['A3', 'A4', 'A9', 'A12', 'R15'],
@@ -193,9 +197,12 @@ PROPS = {
     'C17': {
         'units': ['U10', 'U1', 'U13'], 'level': 'other', 'trusted': ['A1', 'A3', 'A4', 'A5', 'A9', 'A12', 'R16'],
         'proved_part': 'Verus, all inputs: fill_inplace keeps the length and every changed byte was \' \' and became \'\\n\'; the edited bytes stay valid UTF-8, so the final '
-                       'from_utf8().unwrap() cannot panic (U10, using first-fit\'s partition U1 and the ASCII tiling now proved in U13).',
-        'bounded_part': 'BEC: full statement including agreement with wrap at the documented options.',
-        'explanation': 'Mixed: the in-place edit is proved; agreement with wrap is relational and bounded.',
+                       'from_utf8().unwrap() cannot panic; and the changed positions are EXACTLY the last byte of every non-final run that wrap_first_fit (width w) makes of the '
+                       'ASCII-separator words of each \'\\n\'-separated line — none missing, none extra (U10; the two callees enter as pure functions of their input, with the '
+                       'partition contract of U1 and the ASCII tiling of U13).',
+        'bounded_part': 'BEC: agreement with wrap at the documented options (that wrap, through its shortcut and its slow path, produces the same runs with trailing spaces '
+                        'trimmed is a statement over two calls; wrap\'s shortcut needs first-fit arithmetic on uninterpreted floats), and the whole statement again by execution.',
+        'explanation': 'Mixed: fill_inplace has a complete functional contract relative to its two callees; agreement with wrap is relational and bounded.',
     },
     'C18': {
         'units': ['U9'], 'level': 'proof', 'trusted': ['A3', 'A4', 'A12'],
